@@ -62,10 +62,10 @@ Qed.
 
 Theorem timeline_thm c d d' t :
   lcd c d = Ok d' -> regions_have_ids d -> NoDup (rids (d_regions d)) -> refs_in_doc d ->
-  no_hiding_b d = true -> trig_end_zero d = false -> trig_nested c d = false ->
+  no_hiding_b d = true -> trig_nested c d = false ->
   timeline_at d d' t.
 Proof.
-  intros H Hids Hnd Hrefs Hhide Hz Hnest. unfold timeline_at.
+  intros H Hids Hnd Hrefs Hhide Hnest. unfold timeline_at.
   destruct (lcd_body_tree _ _ _ H) as [out [Ho [Er [Ei Hbody]]]].
   pose proof (lcd_regions_rel _ _ _ _ _ _ Ho) as L.
   set (al := replaced_of out) in *.
@@ -96,9 +96,6 @@ Proof.
   { intros ch r Hch' Hr. apply refs_in_elems in Hr as [a [Ha Hra]].
     destruct (Hrefs a r) as [reg [Hreg Hid]]; [unfold body_attrs; rewrite Eb; exact (chains_elems _ _ _ Hch' Ha) | exact Hra|].
     apply in_map_iff. exists reg. split; [unfold rid; rewrite Hid; reflexivity | exact Hreg]. }
-  assert (forall r, In r (d_regions d) -> end_not_zero (eattrs r)) as Hez.
-  { intros r Hr. unfold trig_end_zero in Hz. pose proof (existsb_false_forall _ _ Hz _ Hr) as E. cbv beta in E.
-    unfold end_not_zero, or_none. destruct (e_end (eattrs r)); [rewrite E|]; reflexivity. }
   pose proof (Forall2_in_l _ _ _ Hch) as Hch2.
   destruct (d_regions d) as [|r0 rs0] eqn:Eregs.
   - (* no region: the default region on both sides *)
@@ -121,9 +118,8 @@ Proof.
     unfold visible. rewrite Eregs, Er, Eret. rewrite <- Eregs, <- Eret.
     assert (Hnd' : NoDup (rids (d_regions d))) by (rewrite Eregs; exact Hnd).
     assert (L' : loop_rel c d (keep_styles c (d_initials d)) [] (d_regions d) out) by (rewrite Eregs; exact L).
-    assert (Hez' : forall r, In r (d_regions d) -> end_not_zero (eattrs r)) by (rewrite Eregs; exact Hez).
     assert (Hrin' : forall ch r, In ch (chains b) -> In r (refs ch) -> In r (rids (d_regions d))) by (rewrite Eregs; exact Hrin).
-    clear Hnd L Hez Hrin.
+    clear Hnd L Hrin.
     (* both sides as region-by-chain tables *)
     rewrite (flat_map_ext_in' _ (fun r => flat_map (fun ch => if act t (eattrs r) && chain_active t root_interval ch && chain_sel (e_id (eattrs r)) None ch
                                                           then chain_leaves ch else []) (chains b)) (d_regions d)).
@@ -140,7 +136,7 @@ Proof.
     assert (chain_leaves ch' = chain_leaves ch) as El
       by (unfold chain_leaves; rewrite (tl_para _ _ _ F), (tl_leaf _ _ _ F (chains_nonempty _ _ Hin) dummy dummy); reflexivity).
     rewrite El. apply flat_map_count_eq.
-    rewrite (count_chain c d out L' Hnd' Hids Hez' t ch ch' F (chains_nonempty _ _ Hin) (nested_chains _ _ _ Hnc _ Hin) (fun r Hr => Hrin' ch r Hin Hr)).
+    rewrite (count_chain c d out L' Hnd' Hids t ch ch' F (chains_nonempty _ _ Hin) (nested_chains _ _ _ Hnc _ Hin) (fun r Hr => Hrin' ch r Hin Hr)).
     symmetry. apply filter_length_F2. eapply Forall2_impl; [|exact (retained_kept _ _ _ _ _ _ L')].
     intros x k [Hi [Hb He]]. cbv beta. unfold act. rewrite Hi, Hb, He. reflexivity.
 Qed.
@@ -166,7 +162,7 @@ Proof.
 Qed.
 Theorem timeline_leaves_thm c d d' t :
   lcd c d = Ok d' -> regions_have_ids d -> NoDup (rids (d_regions d)) -> refs_in_doc d ->
-  no_hiding_b d = true -> trig_end_zero d = false -> trig_nested c d = false ->
+  no_hiding_b d = true -> trig_nested c d = false ->
   Permutation (all_leaves_spec d t) (all_leaves_spec d' t).
 Proof.
   intros. rewrite <- !visible_untag. apply Permutation_map. eapply timeline_thm; eassumption.
